@@ -1064,7 +1064,9 @@ class StrMethod:
     def call(self, interp, args, kwargs, text):
         s = self.s
         if isinstance(s, str) and all(isinstance(a, (str, int)) or a is None for a in args):
-            if self.name in ("lower", "upper", "strip", "replace", "startswith", "endswith", "split", "format", "isdigit", "isalpha", "isalnum", "isupper", "islower", "isspace", "title", "capitalize", "zfill", "rsplit", "partition", "rpartition", "removeprefix", "removesuffix", "lstrip", "rstrip", "count", "find"):
+            if self.name in ("startswith", "endswith") and args and isinstance(args[0], tuple):
+                return getattr(s, self.name)(*args)
+            if self.name in ("lower", "upper", "strip", "replace", "startswith", "endswith", "split", "format", "isdigit", "isalpha", "isalnum", "isupper", "islower", "isspace", "title", "capitalize", "zfill", "rsplit", "partition", "rpartition", "removeprefix", "removesuffix", "lstrip", "rstrip", "count", "find", "rfind", "index", "splitlines", "expandtabs", "casefold", "swapcase", "ljust", "rjust", "center", "isidentifier", "isnumeric", "isdecimal", "istitle", "isascii", "isprintable"):
                 return getattr(s, self.name)(*args)
         if self.name == "join" and isinstance(s, str):
             (seq,) = args
